@@ -18,6 +18,7 @@ import (
 
 	"github.com/bluenviron/mediamtx/internal/auth"
 	"github.com/bluenviron/mediamtx/internal/defs"
+	"github.com/bluenviron/mediamtx/internal/verifhook"
 	"verif.local/vmon"
 )
 
@@ -259,7 +260,7 @@ func TestVerifC19(t *testing.T) {
 	isTerminated := func(a string) bool { return strings.HasPrefix(a, "err:") && strings.Contains(a, "terminated") }
 	for hi := 0; hi < n; hi++ {
 		closeAfter := time.Duration(100+rng.IntN(100)) * time.Millisecond
-		scenario := []string{"ready-in-time", "start-timeout", "path-closed-while-held", "publisher-left-then-new-demand", "static-source-unreachable", "ready-then-second-wave", "static-source-fails-while-idle"}[hi%7]
+		scenario := []string{"ready-in-time", "start-timeout", "path-closed-while-held", "publisher-left-then-new-demand", "static-source-unreachable", "ready-then-second-wave", "static-source-fails-while-idle", "static-source-ready-as-start-timeout-fires"}[hi%8]
 		r.Eval(fmt.Sprintf("%s|%d", scenario, hi))
 		r.SetAdd("scenarios", scenario)
 		switch scenario {
@@ -405,7 +406,13 @@ func TestVerifC19(t *testing.T) {
 				if stranded {
 					r.Violation("request-unanswered:after-on-demand-publisher-left", fmt.Sprintf("a %s request that arrived right after the on-demand publisher left (before the previous reader's RemoveReader) is on hold, the command has been stopped, no start timer is armed: unanswered after %s (start timeout %s, close delay %s)", hs2[0].kind, 30*(start+closeAfter), start, closeAfter), wbTrim(e.snapshotEvents(), 40))
 				} else {
-					r.Inconclusive("publisher-left scenario: request unanswered after the watchdog but the path still shows pending demand")
+					// not the recorded state (demand forgotten): the request is on hold in another state for 30 times the
+					// configured start + close delays, i.e. no timer will ever answer it either
+					st := "?"
+					for _, pa := range e.livePaths() {
+						st = fmt.Sprint(pa.onDemandPublisherState)
+					}
+					r.Violation("request-unanswered:after-on-demand-publisher-left:on-demand-state-"+st, fmt.Sprintf("a %s request that arrived right after the on-demand publisher left is still unanswered after %s (30 x (start timeout %s + close delay %s)); on-demand publisher state %s", hs2[0].kind, 30*(start+closeAfter), start, closeAfter, st), wbTrim(e.snapshotEvents(), 40))
 				}
 			} else {
 				c19CheckOnce(r, e, hs2, scenario, func(a string) bool { return isStream(a) || isTimeout(a) || isTerminated(a) }, "a stream or an error")
@@ -472,6 +479,73 @@ func TestVerifC19(t *testing.T) {
 				c19CheckOnce(r, e, []*c19Held{h1, h2}, scenario, func(a string) bool { return true }, "one response")
 			}
 			c19Alternation(r, e, "] started on demand", "] stopped:", scenario)
+			e.close()
+
+		case "static-source-ready-as-start-timeout-fires":
+			// the source reports "ready" at the very moment the start timeout fires: the hook holds the handler's
+			// notification until just after the timeout, i.e. while the path is stopping the source
+			port := 20000 + 200*19 + 170 + hi%20
+			if pb := os.Getenv("VERIF_PORTBASE"); pb != "" {
+				fmt.Sscan(pb, &port)
+				port += 20 + hi%8
+			}
+			start := 600 * time.Millisecond
+			var tReq time.Time
+			var held sync.Once
+			verifhook.SetPoint(func(name string) {
+				if name == "staticsources.handler.beforeSetReady" {
+					held.Do(func() {
+						r.Count("ready_notifications_held_until_after_the_start_timeout", 1)
+						if d := time.Until(tReq.Add(start + 40*time.Millisecond)); d > 0 {
+							time.Sleep(d)
+						}
+					})
+				}
+			})
+			wbReadTimeout = 250 * time.Millisecond
+			e := wbStart(t, fmt.Sprintf("  p:\n    source: udp+mpegts://127.0.0.1:%d\n    sourceOnDemand: yes\n    sourceOnDemandStartTimeout: %s\n    sourceOnDemandCloseAfter: 300ms\n", port, start))
+			wbReadTimeout = 10 * time.Second
+			tReq = time.Now()
+			h1 := e.heldDescribe("a0", "p")
+			stopFeed := make(chan struct{})
+			feedDone := make(chan struct{})
+			go func() {
+				defer close(feedDone)
+				time.Sleep(60 * time.Millisecond)
+				conn, err := net.Dial("udp", fmt.Sprintf("127.0.0.1:%d", port))
+				if err != nil {
+					return
+				}
+				defer conn.Close()
+				track := &mpegts.Track{Codec: &tscodecs.H264{}}
+				bw := bufio.NewWriter(conn)
+				w := &mpegts.Writer{W: bw, Tracks: []*mpegts.Track{track}}
+				if w.Initialize() != nil {
+					return
+				}
+				for k := int64(0); ; k++ {
+					select {
+					case <-stopFeed:
+						return
+					default:
+					}
+					w.WriteH264(track, k*3000, k*3000, [][]byte{{7, 1, 2, 3}, {8, 1}, {5, 1}}) //nolint:errcheck
+					bw.Flush()                                                                  //nolint:errcheck
+					time.Sleep(20 * time.Millisecond)
+				}
+			}()
+			c19Wait(c19AllAnswered([]*c19Held{h1}), 30*start)
+			// whatever the first request got (the stream or the timeout), a later one must be answered too
+			time.Sleep(100 * time.Millisecond)
+			h2 := e.heldDescribe("b0", "p")
+			if !c19Wait(c19AllAnswered([]*c19Held{h1, h2}), 30*start) {
+				r.Violation("request-unanswered:static-source-ready-as-start-timeout-fired", fmt.Sprintf("the on-demand static source became ready while the start timeout (%s) fired; requests are unanswered after %s (first request answered: %v, second: %v)", start, 30*start, len(h1.got()) > 0, len(h2.got()) > 0), wbTrim(e.snapshotEvents(), 40))
+			} else {
+				c19CheckOnce(r, e, []*c19Held{h1, h2}, scenario, func(a string) bool { return true }, "one response")
+			}
+			close(stopFeed)
+			<-feedDone
+			verifhook.SetPoint(nil)
 			e.close()
 
 		case "static-source-unreachable":
